@@ -21,6 +21,9 @@
               (mirrored data on the mirrored grid).  Mirroring is exact on the lattice.  The slope of
               the LINEAR spline is not compared at interior knots (it jumps there and the code reports
               the right-hand piece, which is the other piece after mirroring).
+   "order"    A FIT DOES NOT DEPEND ON THE ORDER IN WHICH THE SAMPLES ARE LISTED: the fit data of "fitopt"
+              listed ascending, descending, scrambled (stride 2) and as two ascending blocks (odd then
+              even samples) give the same spline (lin, cubic natural, cubic periodic).
    "scale"    SCALE INVARIANCE with exact powers of two (multiplication by 2^k is exact in binary
               floating point, so the scaled computation is the same computation): an instance may carry
               an ordinate scale ys (y -> 2^ys y) or an abscissa scale xs (x -> 2^xs x); the harness feeds
@@ -57,6 +60,7 @@ Init == /\ ph = 0
                  \/ c = [fam |-> "fitspace", K |-> Knots(o, g), Y |-> y]
                  \/ n >= 3 /\ c = [fam |-> "fitopt", K |-> Knots(o, g), Y |-> y]
                  \/ n >= 3 /\ c = [fam |-> "mirror", K |-> Knots(o, g), Y |-> y]
+                 \/ n >= 3 /\ c = [fam |-> "order", K |-> Knots(o, g), Y |-> y]
                  \* 1/ScaleThin of the data sets, each with one of the six scales
                  \/ /\ n >= 3 /\ Hash2(n, g, y) % ScaleThin = 0
                     /\ c = [fam |-> "scale", K |-> Knots(o, g), Y |-> y, v |-> ((Hash2(n, g, y) \div ScaleThin) % 6) + 1]
@@ -159,6 +163,23 @@ MRels == Flatten([i \in 1..Len(MCfgs) |->
               \o [j \in 1..Len(slopePts) |->
                  Relation("reflection-symmetry:slope", s, <<Term(1, m, 1, -slopePts[j]), Term(1, s, 1, slopePts[j])>>)]])
 
+\* ---- listing order of the fit samples -------------------------------------------------------------
+LQ == Len(QP)                                   \* odd: 4 (N-1) + 1, so stride 2 is a permutation
+Perm(kind) == IF kind = 1 THEN [j \in 1..LQ |-> LQ + 1 - j]
+              ELSE IF kind = 2 THEN [j \in 1..LQ |-> (((j - 1) * 2) % LQ) + 1]
+              ELSE [j \in 1..LQ |-> IF j <= (LQ + 1) \div 2 THEN 2 * j - 1 ELSE 2 * (j - (LQ + 1) \div 2)]
+OData == <<[k |-> QP, y |-> PerY]>>
+         \o [kind \in 1..3 |-> [k |-> [j \in 1..LQ |-> QP[Perm(kind)[j]]], y |-> [j \in 1..LQ |-> PerY[Perm(kind)[j]]]]]
+OCfgs == <<<<"lin", 0>>, <<"cubic", 0>>, <<"cubic", 1>>>>
+\* instance 4(i-1)+1 = configuration i with ascending data, +1 descending, +2 scrambled, +3 two blocks
+OInsts == [j \in 1..12 |-> LET cf == OCfgs[((j - 1) \div 4) + 1] IN
+             [t |-> cf[1], b |-> cf[2], api |-> "e", op |-> "fit", d |-> ((j - 1) % 4) + 1, g |-> K]]
+OClause(kind) == IF kind = 1 THEN "sample-order-independence:descending"
+                 ELSE IF kind = 2 THEN "sample-order-independence:scrambled" ELSE "sample-order-independence:two-blocks"
+ORels == Flatten([i \in 1..9 |->
+           LET cfi == (i - 1) \div 3  kind == ((i - 1) % 3) + 1
+           IN SameAt(OClause(kind), 4 * cfi + 1 + kind, 4 * cfi + 1, AllPts)])
+
 \* ---- scale invariance ---------------------------------------------------------------------------
 ScaleOf(v) == IF v = 1 THEN <<-60, 0>> ELSE IF v = 2 THEN <<-40, 0>> ELSE IF v = 3 THEN <<40, 0>>
               ELSE IF v = 4 THEN <<0, -20>> ELSE IF v = 5 THEN <<0, 20>> ELSE <<0, 30>>
@@ -171,13 +192,14 @@ SCfgs == <<<<"lin", 0, "interp", 1>>>>
          \o <<<<"lin", 0, "fit", 1>>, <<"cubic", 0, "fit", 3>>, <<"cubic", 1, "fit", 3>>>>
 SInst(cf, ys, xs) == IF cf[3] = "interp"
                      THEN [t |-> cf[1], b |-> cf[2], api |-> "e", op |-> "interp", d |-> 1, ys |-> ys, xs |-> xs]
-                     \* Fit: abscissa scale capped at 2^-4 .. 2^4.  The constrained QR of the fit works on unscaled
-                     \* unknowns (f, f''), whose matrix columns differ by h^2; its error grows like 2^(2|m|) eps
-                     \* (measured: natural fit 3e-6 at 2^20, garbage at 2^30; periodic fit on 3 nodes 2e-9 at 2^-10,
-                     \* 3e-3 at 2^-20, where the slope row and the smoothing row share their f-part) - conditioning
-                     \* in units far from any table VOTCA handles, not a wrong branch; not asserted.
+                     \* Fit under abscissa scaling must SUCCEED and be covariant up to the conditioning of the
+                     \* constrained QR (unscaled unknowns (f, f''), matrix columns differ by h^2: error ~ 4^|m| eps;
+                     \* measured natural fit 3e-6 at 2^20, periodic fit on 3 nodes 2e-9 at 2^-10 and 3e-3 at 2^-20, where
+                     \* the slope row and the smoothing row share their f-part).  Natural fits: 2^-20 .. 2^20, periodic
+                     \* fits 2^-10 .. 2^10; the harness tolerance for fit instances is max(1e-9, 4^|m| 1e-13).
                      ELSE [t |-> cf[1], b |-> cf[2], api |-> "i", op |-> "fit", d |-> 2, g |-> K, ys |-> ys,
-                           xs |-> IF xs > 4 THEN 4 ELSE IF xs < -4 THEN -4 ELSE xs]
+                           xs |-> LET cap == IF cf[2] = 1 THEN 10 ELSE 20 IN
+                                  IF xs > cap THEN cap ELSE IF xs < -cap THEN -cap ELSE xs]
 \* instance 2i-1 = configuration i unscaled, 2i = scaled
 SInsts == LET sc == ScaleOf(c.v) IN
   [j \in 1..(2 * Len(SCfgs)) |-> IF j % 2 = 1 THEN SInst(SCfgs[(j + 1) \div 2], 0, 0)
@@ -219,6 +241,8 @@ Vector == (Emit /\ ph = 1) =>
     IF c.fam = "linear" THEN [fam |-> "linear", data |-> LData, inst |-> LInsts, exact |-> <<>>, rel |-> CompactRels(LRels)]
     ELSE IF c.fam = "mirror" THEN [fam |-> "mirror", data |-> MData, inst |-> MInsts, exact |-> <<>>,
                                    rel |-> CompactRels(MRels)]
+    ELSE IF c.fam = "order" THEN [fam |-> "order", data |-> OData, inst |-> OInsts, exact |-> <<>>,
+                                  rel |-> CompactRels(ORels)]
     ELSE IF c.fam = "scale" THEN [fam |-> "scale", data |-> <<[k |-> K, y |-> Y], [k |-> QP, y |-> PerY]>>,
                                   inst |-> SInsts, exact |-> <<>>, rel |-> CompactRels(SRels),
                                   probe |-> CompactRels(SProbe)]
